@@ -45,6 +45,8 @@ if [ -n "$FAKE_PAUSE_AT" ]; then
   : > "$FAKE_PAUSE_FILE.reached"
   n=0; while [ ! -e "$FAKE_PAUSE_FILE" ] && [ $n -lt 3000 ]; do sleep 0.01; n=$((n+1)); done
   tail -c +$((FAKE_PAUSE_AT+1)) "$FAKE_LISTING" || exit 1
+  if [ "$FAKE_KILL" = "self" ]; then kill -9 $$; fi
+  if [ "$FAKE_KILL" = "parent" ]; then sleep 0.05; kill -9 $PPID; fi
   exit ${FAKE_EXIT:-0}
 fi
 # a write error of its own (injected by the harness) makes it fail like any tool that checks its output
